@@ -35,6 +35,14 @@ def gen_case(rng):
         c = c03.gen_case(rng)
         c["asserts"] = None
         c["pastify"] = True
+        if rng.random() < 0.5:
+            # the same bounded-future formula cut into named sub-specifications (pastify() rebuilds every assertion)
+            from .. import modular
+            defs = modular.add_repeats(rng, modular.decompose(rng, c["f"]))
+            if len(defs) > 1:
+                c["asserts"] = defs
+                c["f"] = modular.inline(defs)["out"]
+                c["stream"] = "multi-assertion"
     npre = 0 if rng.random() < 0.15 else rng.randint(1, 20)
     npost = rng.randint(1, 8)
     c["npre"], c["npost"] = npre, npost
